@@ -338,7 +338,7 @@ def expect_base(rng: random.Random, i: int) -> dict:
         if pinned and rng.random() < 0.5:
             t = 6
         spec = {'type': (t if rng.random() < 0.6 else ('PinnedWire6' if t == 6 else f'E{t}')), 'include': pred(), 'exclude': pred() if rng.random() < 0.5 else None,
-                'predicate': pred() if rng.random() < 0.3 else None, 'timeout': rng.choice([0.05, 0.2, 0.5, 1.0, 3.0])}
+                'predicate': pred() if rng.random() < 0.3 else None, 'timeout': rng.choice([0.05, 0.2, 0.5, 1.0, 3.0, None])}
         actors.append([['sleep', rng.choice([0, 0, 0.02, 0.1, 0.4])], ['expect', rng.randrange(nb), spec]])
     return {'seed': rng.randrange(1 << 30), 'buses': buses, 'fwd': [], 'handlers': hs, 'actors': actors, 'n_exp': n_exp, 'W': 4.0}
 
